@@ -298,7 +298,7 @@ impl Property for C11 {
     const RULE: &'static str = "random gains (finite, zeros included; rotated per command kind so a wrong-kind selection is visible), initial command of any kind, optional following of a scripted command getter, and histories of 0..48 events from {present state sample with strictly increasing time (dt 1 us..3 h), absent, Err(1|2), set(current command), set(same kind other value), set(other kind), followed-command change, followed-command absent}. Oracle: reference PID law + 0/1/2 trapezoidal integrations in f64 with a running f32 error bound (|out - ref| <= 4e), absent for exactly the first 0/1/2 samples of a segment, update() return values, error reporting until the next present sample (in windows where the statement's clauses overlap - error followed by absent or by set(different) - Err or absent are both accepted), exact no-op-ness of set(same) by history deletion. Non-trivial = a velocity/acceleration segment of >= 4 samples or a command change followed by >= 3 samples; distinct = (event kinds, initial kind, following, gains).";
     type Scenario = Scenario;
     fn strategy(_tier: Tier) -> BoxedStrategy<Scenario> {
-        ([gen::moderate(), gen::moderate(), gen::moderate()], 0u8..3, gen::moderate(), proptest::bool::weighted(0.3), t0_strategy(), proptest::collection::vec(cev(), 0..=48))
+        ([gen::wide(), gen::wide(), gen::wide()], 0u8..3, gen::moderate(), proptest::bool::weighted(0.3), t0_strategy(), proptest::collection::vec(cev(), 0..=48))
             .prop_map(|(k, cmd_kind, cmd_value, follow, t0, events)| Scenario { k, cmd_kind, cmd_value, follow, t0, events })
             .boxed()
     }
